@@ -23,10 +23,43 @@ func subRunOrder(r *ev.Run, prop, tier, order string) {
 // (first-use order, GOMAXPROCS, ...) and merges counts and violations under
 // the label.
 func subRun(r *ev.Run, prop, tier, order string, extraEnv ...string) {
+	subRunBin(r, os.Args[0], prop, tier, order, extraEnv...)
+}
+
+// subRunArch builds the check binary for another GOARCH (386: int and uintptr
+// are 32 bits, so length arithmetic that is harmless on amd64 can wrap or go
+// negative) and runs the quick tier of the check with it as a child. Only from
+// a top-level run. A tree that does not build for that architecture is
+// recorded as a cap, not a violation.
+func subRunArch(r *ev.Run, prop, arch string) {
+	if os.Getenv("VERIF_SUBRUN") != "" {
+		return
+	}
+	dir := filepath.Join(ev.Root(), ".work", fmt.Sprintf("arch-%d-%s", os.Getpid(), arch))
+	_ = os.MkdirAll(dir, 0o755)
+	ev.AtExit(func() { os.RemoveAll(dir) })
+	bin := filepath.Join(dir, "vcheck")
+	args := []string{"build"}
+	if mf := os.Getenv("VERIF_MODFILE"); mf != "" {
+		args = append(args, "-modfile="+mf)
+	}
+	args = append(args, "-o", bin, "./cmd/vcheck")
+	cmd := exec.Command("go", args...)
+	cmd.Dir = ev.Root()
+	cmd.Env = append(goEnv(), "GOARCH="+arch)
+	if out, err := cmd.CombinedOutput(); err != nil {
+		r.Cap("the GOARCH=" + arch + " configuration could not be built: " + tail(out, 400))
+		return
+	}
+	r.Rule("additional configuration: the quick tier of this check built for GOARCH=" + arch + " (32-bit int and uintptr) and run as a child process; its evaluations are added, its violations reported under order=GOARCH=" + arch)
+	subRunBin(r, bin, prop, "quick", "GOARCH="+arch)
+}
+
+func subRunBin(r *ev.Run, bin, prop, tier, order string, extraEnv ...string) {
 	dir := filepath.Join(ev.Root(), ".work", fmt.Sprintf("sub-%d-%s", os.Getpid(), order))
 	_ = os.MkdirAll(dir, 0o755)
 	defer os.RemoveAll(dir)
-	cmd := exec.Command(os.Args[0], prop, tier)
+	cmd := exec.Command(bin, prop, tier)
 	cmd.Env = append(os.Environ(), "VERIF_SUBRUN="+order, "VERIF_EVIDENCE_DIR="+dir, "VERIF_REPLAY_DIR="+dir)
 	cmd.Env = append(cmd.Env, extraEnv...)
 	out, err := cmd.CombinedOutput()
